@@ -419,11 +419,21 @@ pub fn check_dedup(sink: &mut Sink, xot: &mut Xot, vocab: &mut Vocab, t: &GTree,
                     }
                 }
                 Some(Err(e)) => {
+                    // one failure per mechanism (scope_dedup_class.rs): which kind of name lost its
+                    // prefix, how the namespace was known above the removed declaration, why that does
+                    // not help the name
+                    let (mut lost, _) = crate::scope_dedup_class::classify(vocab, t, after, None, path);
+                    if lost.is_empty() {
+                        lost.push("no-name-lost-its-prefix".to_string());
+                    }
                     // C15_serialises_partial (Lean): impossible for a root call on a tree without shadowing
-                    if path.is_empty() && !has_shadowing(t, &mut vec![1]) {
-                        fail(sink, "C15", "C15:serialisation-fails-after-dedup-without-shadowing", &format!("contradicts theorem C15_serialises_partial: no prefix is declared twice on any path, yet to_string succeeded before ({}) and fails after with {:?}", s, e), t, path, "dedup");
+                    let head = if path.is_empty() && !has_shadowing(t, &mut vec![1]) {
+                        "C15:serialisation-fails-after-dedup-without-shadowing"
                     } else {
-                        fail(sink, "C15", "C15:serialisation-fails-after-dedup", &format!("to_string succeeded before ({}) and fails after deduplicate_namespaces with {:?}", s, e), t, path, "dedup");
+                        "C15:serialisation-fails-after-dedup"
+                    };
+                    for class in lost {
+                        fail(sink, "C15", &format!("{}:{}", head, class), &format!("to_string succeeded before ({}) and fails after deduplicate_namespaces with {:?}", s, e), t, path, "dedup");
                     }
                 }
                 None => fail(sink, "C15", "C15:serialisation-panics-after-dedup", "to_string panics after deduplicate_namespaces", t, path, "dedup"),
@@ -436,7 +446,13 @@ pub fn check_dedup(sink: &mut Sink, xot: &mut Xot, vocab: &mut Vocab, t: &GTree,
     if crate::common::guarded(|| xot.deduplicate_namespaces(node)).is_some() {
         let again = read_tree(xot, vocab, root);
         if &again != after {
-            fail(sink, "C15", "C15:second-call-removes-more", "a second deduplicate_namespaces call on the same node removes further declarations", t, path, "dedup");
+            let (_, mut second) = crate::scope_dedup_class::classify(vocab, t, after, Some(&again), path);
+            if second.is_empty() {
+                second.push("unclassified".to_string());
+            }
+            for class in second {
+                fail(sink, "C15", &format!("C15:second-call-removes-more:{}", class), "a second deduplicate_namespaces call on the same node removes further declarations", t, path, "dedup");
+            }
         }
     }
 }
